@@ -18,7 +18,7 @@ _RULES = [
     ("stray-doc-comment-relocated", COMMENTS, "reordered-across-kinds", r"\S.*/// "),
     ("comment-between-imports", None, None, r"^\s*(?:////? \S+\s*)*use\b.*// .*\buse\b|^\s*(?:// \S+\s*)+use\b"),
     # ---- captures
-    ("pipe-capture-labelled-hole", None, None, r"\|>\s*[\w.]+\s*[({][^(){}]*\b[a-z]\w* : _"),
+    ("pipe-capture-labelled-hole", None, None, r"\|>\s*[\w.]+\s*[({][^(){}]*\b[a-z]\w* : _|\|>.*[)}]\(\s*[a-z]\w* : _\w*\s*[,)]"),
     ("pipe-capture-two-holes", None, None, r"\|>\s*[\w.]+\(_\w*, _|\|>\s*[\w.]+\(_\w*, .*, _\w*\s*[,)]"),
     ("record-capture-hole", None, None, r"\b(?:[a-z]\w*\.)?(?:[A-Z]\w*\.)?[A-Z]\w* \{[^{}]*\b[a-z]\w* : _\w*"),
     ("capture-labelled-hole-label-dropped", ("ast-changed",), None, r"[\w.]\([a-z]\w* : _\w*, "),
@@ -33,7 +33,7 @@ _RULES = [
     ("trace-braces-dropped", None, None, r"[({]\s*trace\b"),
     ("tuple-index-on-broken-pipeline", ("output-does-not-parse",), None, r"↵\|>[^()]*\)\.\d+(?:st|nd|rd|th)"),
     ("trace-argument-braces-dropped", None, None, r"\btrace\b.*[:,]\s*\{\s*@?\""),
-    ("chain-head-parens-dropped", None, None, r"[({]\s*(?:- |! |.*?\s" + OP + r"\s).*?[)}]\s*(?:\(|\.\w)"),
+    ("chain-head-parens-dropped", None, None, r"[({]\s*(?:↵?- |! |.*?\s" + OP + r"\s).*?[)}]\s*(?:\(|\.\w)"),
     ("anonymous-operator-parens-dropped", None, None, r"[({]\s*(?:\+|\*|/|%|==|!=|<=|>=|<|>|&&|\|\|)\s+[\w@\"]|(?:\+|\*|/|%|==|!=|<=|>=|<|>|&&|\|\|)\("),
     # ---- patterns / literals / definitions
     ("expect-true-sugar-overapplied", None, None, r"\bexpect True\s*(?:[({]|<-)"),
@@ -46,6 +46,7 @@ _RULES = [
     ("comment-in-labelled-pattern-field-layout", ("not-idempotent",), None, r"\{[^{}]*\b[a-z]\w* // \S+\s*:|\{[^{}]*\b[a-z]\w* : // "),
     ("comment-before-module-comments-layout", ("not-idempotent",), None, r"// \S+\s*//// "),
     ("comment-at-end-of-module-blank-lines-layout", ("not-idempotent",), None, r"// \S+\s*⏎⏎\s*$"),
+    ("comment-placement-not-idempotent", ("not-idempotent",), None, r"// "),
     ("empty-data-type", None, None, r"\btype [A-Z]\w*(?:<[^>]*>)? \{ \}"),
 ]
 RULES = [(n, k, h, re.compile(p, re.S)) for n, k, h, p in _RULES]
@@ -59,4 +60,6 @@ def classify(kind, canon, sig=()):
             continue
         if pat.search(canon):
             return name
-    return "unclassified:" + canon[:80]
+    import hashlib
+
+    return "unclassified:" + hashlib.sha256(canon.encode()).hexdigest()[:10]
